@@ -472,24 +472,24 @@ End ProtocolProofs.
 (* ------------------------------------------------------------------------------------------ *)
 (** * (b') teardown of the invoked session's delayed-event thread inside uninvoke               *)
 
-Inductive treachable (d : dpc) : tst -> Prop :=
-| treach_init : treachable d (tst_init d)
-| treach_step : forall s l s', treachable d s -> tstep s l = Some s' -> treachable d s'.
+Inductive treachable (sticky : bool) (d : dpc) : tst -> Prop :=
+| treach_init : treachable sticky d (tst_init d)
+| treach_step : forall s l s', treachable sticky d s -> tstep sticky s l = Some s' -> treachable sticky d s'.
 
-Lemma trun_treachable : forall d ls s s', treachable d s -> trun s ls = Some s' -> treachable d s'.
+Lemma trun_treachable : forall k d ls s s', treachable k d s -> trun k s ls = Some s' -> treachable k d s'.
 Proof.
   induction ls as [|l r IH]; intros s s' R H; simpl in H.
   - inversion H; subst; auto.
-  - destruct (tstep s l) as [s1|] eqn:E; [|discriminate]. apply (IH s1 s'); auto. econstructor; eauto.
+  - destruct (tstep k s l) as [s1|] eqn:E; [|discriminate]. apply (IH s1 s'); auto. econstructor; eauto.
 Qed.
 
 (* stop() begins while the thread is between its test of _isStarted and event_base_loop: the break is
    lost, the thread blocks in the loop, the join never returns -- uninvoke does not return *)
 Lemma teardown_deadlock_refuted_lemma :
-  exists s, treachable DRead s /\ tp s = TJoin /\ dp s = DLoop /\ tstuck s = true /\
-            (forall l, tstep s l = None).
+  exists s, treachable false DRead s /\ tp s = TJoin /\ dp s = DLoop /\ tstuck false s = true /\
+            (forall l, tstep false s l = None).
 Proof.
-  destruct (trun (tst_init DRead) [TD_read; TT_clear; TT_break; TD_enter]) as [s|] eqn:E; [|discriminate].
+  destruct (trun false (tst_init DRead) [TD_read; TT_clear; TT_break; TD_enter]) as [s|] eqn:E; [|discriminate].
   exists s. split; [eapply trun_treachable; [constructor | exact E]|].
   vm_compute in E. inversion E; subst. repeat split; auto.
   intros l; destruct l; reflexivity.
@@ -505,13 +505,13 @@ Proof.
   - intros H. inversion H; subst. rewrite !Bool.eqb_reflx. destruct b3, b4; reflexivity.
 Qed.
 
-Definition tclosed (seen : list tst) : bool :=
-  forallb (fun s => forallb (fun s' => existsb (tst_eqb s') seen) (tsucc s)) seen.
+Definition tclosed (k : bool) (seen : list tst) : bool :=
+  forallb (fun s => forallb (fun s' => existsb (tst_eqb s') seen) (tsucc k s)) seen.
 
-Lemma tclosed_covers : forall d seen, tclosed seen = true -> existsb (tst_eqb (tst_init d)) seen = true ->
-  forall s, treachable d s -> existsb (tst_eqb s) seen = true.
+Lemma tclosed_covers : forall k d seen, tclosed k seen = true -> existsb (tst_eqb (tst_init d)) seen = true ->
+  forall s, treachable k d s -> existsb (tst_eqb s) seen = true.
 Proof.
-  intros d seen Hc Hi s R. induction R as [|s l s' R IH H]; auto.
+  intros k d seen Hc Hi s R. induction R as [|s l s' R IH H]; auto.
   apply existsb_exists in IH. destruct IH as [x [Hx Hex]]. apply tst_eqb_eq in Hex. subst x.
   unfold tclosed in Hc. rewrite forallb_forall in Hc. specialize (Hc s Hx).
   rewrite forallb_forall in Hc. apply Hc.
@@ -520,20 +520,33 @@ Proof.
   - rewrite H. left; reflexivity.
 Qed.
 
-(* partial: when the thread already sits in event_base_loop (or has not yet tested _isStarted after the
-   flag was cleared) the teardown returns; missing: exactly the window of the lemma above *)
-Definition tseen_loop : list tst := texplore 64 [tst_init DLoop] [tst_init DLoop].
-
-Lemma teardown_from_loop_never_stuck_lemma : forall s, treachable DLoop s -> tstuck s = false.
+Lemma texplore_never_stuck : forall k d seen,
+  tclosed k seen = true -> existsb (tst_eqb (tst_init d)) seen = true ->
+  forallb (fun x => negb (tstuck k x)) seen = true ->
+  forall s, treachable k d s -> tstuck k s = false.
 Proof.
-  intros s R.
-  assert (Hc : tclosed tseen_loop = true) by (vm_compute; reflexivity).
-  assert (Hi : existsb (tst_eqb (tst_init DLoop)) tseen_loop = true) by (vm_compute; reflexivity).
-  pose proof (tclosed_covers DLoop tseen_loop Hc Hi s R) as Hin.
-  assert (Hall : forallb (fun x => negb (tstuck x)) tseen_loop = true) by (vm_compute; reflexivity).
+  intros k d seen Hc Hi Hall s R.
+  pose proof (tclosed_covers k d seen Hc Hi s R) as Hin.
   rewrite forallb_forall in Hall.
   apply existsb_exists in Hin. destruct Hin as [x [Hx He]]. apply tst_eqb_eq in He. subst x.
-  specialize (Hall s Hx). destruct (tstuck s); [discriminate | reflexivity].
+  specialize (Hall s Hx). destruct (tstuck k s); [discriminate | reflexivity].
+Qed.
+
+(* partial (pinned): when the thread already sits in event_base_loop the teardown returns; missing:
+   exactly the window of the lemma above *)
+Lemma teardown_from_loop_never_stuck_lemma : forall s, treachable false DLoop s -> tstuck false s = false.
+Proof.
+  apply (texplore_never_stuck false DLoop (texplore false 64 [tst_init DLoop] [tst_init DLoop])); vm_compute; reflexivity.
+Qed.
+
+(* repaired stop(): wherever the thread is when stop() begins, no reachable state is stuck *)
+Lemma teardown_sticky_never_stuck_lemma : forall d s, treachable true d s -> tstuck true s = false.
+Proof.
+  intros d. destruct d.
+  - apply (texplore_never_stuck true DRead (texplore true 64 [tst_init DRead] [tst_init DRead])); vm_compute; reflexivity.
+  - apply (texplore_never_stuck true DEnter (texplore true 64 [tst_init DEnter] [tst_init DEnter])); vm_compute; reflexivity.
+  - apply (texplore_never_stuck true DLoop (texplore true 64 [tst_init DLoop] [tst_init DLoop])); vm_compute; reflexivity.
+  - apply (texplore_never_stuck true DEnd (texplore true 64 [tst_init DEnd] [tst_init DEnd])); vm_compute; reflexivity.
 Qed.
 
 (* ------------------------------------------------------------------------------------------ *)
